@@ -252,6 +252,15 @@ def rule_reorder(chk):
     guards = [compact(M.enclosing(c, (ast.If,)).test) for c in calls if M.enclosing(c, (ast.If,)) is not None]
     chk.decide(len(calls) == 2 and 'reorder_freq>0' in guards and any('self.count%reorder_freq==0' in g for g in guards), 'reordering', 'schedule',
                node=solve, file=SOL, func='Solver.solve', detail_bad='re-ordering guards: %s' % guards, detail_ok='once at start and every reorder_freq iterations')
+    rp = M.find_method(sol, 'Solver', 'reorder_particles')
+    gs = C.build_cfg(rp)
+    loops = [l for l in ast.walk(rp) if isinstance(l, ast.For) and any(M.call_name(c) == 'self.nnps.spatially_order_particles' for c in M.calls(l))]
+    upd = [n.id for n in gs.nodes if n.ast is not None and isinstance(n.ast, ast.Expr) and M.call_name(n.ast.value) == 'self.nnps.update']
+    ln = gs.node_of(loops[0]) if loops else None
+    chk.decide(ln is not None and bool(upd) and gs.must_pass(ln, gs.exit, upd), 'reordering', 'neighbours-rebuilt-after-permutation', node=rp, file=SOL,
+               func='Solver.reorder_particles',
+               detail_bad='after the particles are permuted the neighbour structures are not rebuilt: an evaluation that does not refresh them '
+                          '(update_nnps=False, initial_acceleration) uses pre-permutation indices', detail_ok='self.nnps.update() after the permutation loop')
     t = M.cy(NB)
     fn = M.find_method(t, 'NNPS', 'spatially_order_particles')
     cs = [c for c in M.calls(fn) if isinstance(c.func, ast.Attribute) and c.func.attr == 'c_align_array']
@@ -271,6 +280,12 @@ def main(chk):
     rule_sorting(chk, ci, classes, selectable)
     rule_own_row(chk)
     rule_reorder(chk)
+    # with or without the neighbour cache: the cache must be invalidated completely on every update (rule shared with C01)
+    import importlib.util
+    spec = importlib.util.spec_from_file_location('c01mod', os.path.join(os.path.dirname(os.path.abspath(__file__)), 'c01.py'))
+    c01 = importlib.util.module_from_spec(spec)
+    spec.loader.exec_module(c01)
+    c01.rule_cache(chk)
     # informational: classes not selectable from the command line
     for cname, (rel, cls) in sorted(classes.items()):
         if cname in selectable or cname in ('NNPS', 'NNPSBase') or not cname.endswith('NNPS'):
